@@ -53,9 +53,9 @@ ob("radix","VerifC15Radix",q,t,
 
 # ---- english ----
 q=[(0,0,0,3),(1,0,0,3),(0,1,0,2),(1,1,0,2),(0,0,12,3),(1,0,1000,3)]
-t=uniq(q+[(o,n,0,5) for o in (0,1) for n in (0,1)]+[(o,0,f,5) for o in (0,1) for f in (1,2,9,10,11,19,20,21,55,99)]+[(o,1,f,4) for o in (0,1) for f in (7,100,999)])
+t=uniq(q+[(o,n,0,5) for o in (0,1) for n in (0,1)]+[(o,0,f,5) for o in (0,1) for f in (1,9,10,20,99)]+[(o,1,f,4) for o in (0,1) for f in (7,100,999)])
 ob("english","VerifC15English",q,t,
- "~R (cardinal) and ~:R (ordinal) on the real control processor for every integer whose decimal digits are a concrete prefix `fix` followed by ns digits 0..9 each (engine forks: dirR indexes its word tables with the digits, so the engine has to enumerate them; the forks are placed in the harness to keep the feasibility queries trivial), optionally negated. Quick: all 0..999 (+/-99), 12000..12999, 1000000..1000999; thorough: all 0..99999 both signs, 6- and 7-digit numbers with prefixes 1,2,9,10,11,19,20,21,55,99 (x 10^5), negative 7-digit samples. Oracle zzC15RefEnglish: independent speller by triples (CLHS 22.3.2.1 examples, usual English: hundred / tens-ones with hyphen / thousand, million; ordinal ending on the last word incl. -ieth, hundredth, thousandth, millionth); text compared modulo hyphen-versus-space; the sign word may be 'negative' or 'minus'. The known-finding regions are predicates over the digits.",
+ "~R (cardinal) and ~:R (ordinal) on the real control processor for every integer whose decimal digits are a concrete prefix `fix` followed by ns digits 0..9 each (engine forks: dirR indexes its word tables with the digits, so the engine has to enumerate them; the forks are placed in the harness to keep the feasibility queries trivial), optionally negated. Quick: all 0..999 (+/-99), 12000..12999, 1000000..1000999; thorough: all 0..99999 both signs, 6- and 7-digit numbers with prefixes 1,9,10,20,99 (x 10^5), negative 7-digit samples. Oracle zzC15RefEnglish: independent speller by triples (CLHS 22.3.2.1 examples, usual English: hundred / tens-ones with hyphen / thousand, million; ordinal ending on the last word incl. -ieth, hundredth, thousandth, millionth); text compared modulo hyphen-versus-space; the sign word may be 'negative' or 'minus'. The known-finding regions are predicates over the digits.",
  carves=["C15-R-zero-triple","C15-R-round-numbers"])
 
 # ---- roman ----
